@@ -1,6 +1,9 @@
 package scenario
 
 import (
+	"reflect"
+	"unsafe"
+
 	"context"
 	"errors"
 	"strings"
@@ -38,15 +41,8 @@ var z struct {
 }
 
 func zCtx(ctx context.Context, r *zRec) {
-	// the metadata as the transport will read (and validate) it: FromOutgoingContext would lower-case
-	// the keys on the way out, the transport does not
-	if md, added, ok := metadata.FromOutgoingContextRaw(ctx); ok {
-		r.md = md.Copy()
-		for _, kv := range added {
-			for i := 0; i+1 < len(kv); i += 2 {
-				r.md[kv[i]] = append(r.md[kv[i]], kv[i+1])
-			}
-		}
+	if md, ok := zRawMD(ctx); ok {
+		r.md = md
 	}
 	r.deadline = -1
 	if d, ok := ctx.Deadline(); ok {
@@ -325,4 +321,70 @@ func HarnessC20ScenarioCalls() {
 	vObserve("recs", int64(len(z.recs)))
 	vReach("end")
 	_ = time.Second
+}
+
+// the outgoing metadata as the transport will read (and validate) it. metadata.FromOutgoingContext
+// lower-cases the keys on the way out and would hide a key sent with an upper-case letter; the raw
+// accessor is not exported by this grpc version. Symbolically NewOutgoingContext is a harness stub that
+// remembers what it was given; natively the context chain is walked by reflection.
+var zRaw struct {
+	md  metadata.MD
+	set bool
+}
+
+func vStub_google_golang_org_grpc_metadata_NewOutgoingContext(ctx context.Context, md metadata.MD) context.Context {
+	zRaw.md, zRaw.set = md, true
+	return ctx
+}
+
+func zPeek(f reflect.Value) interface{} {
+	return reflect.NewAt(f.Type(), unsafe.Pointer(f.UnsafeAddr())).Elem().Interface()
+}
+
+func zRawMD(ctx context.Context) (metadata.MD, bool) {
+	if !vNative() {
+		md, ok := zRaw.md, zRaw.set
+		zRaw.md, zRaw.set = nil, false
+		return md.Copy(), ok
+	}
+	for ctx != nil {
+		v := reflect.ValueOf(ctx)
+		if v.Kind() != reflect.Ptr || v.Elem().Kind() != reflect.Struct {
+			return nil, false
+		}
+		e := v.Elem()
+		if e.Type().String() == "context.valueCtx" {
+			key := zPeek(e.FieldByName("key"))
+			if reflect.TypeOf(key).String() == "metadata.mdOutgoingKey" {
+				rv := reflect.ValueOf(zPeek(e.FieldByName("val")))
+				out := metadata.MD{}
+				md := rv.FieldByName("md")
+				for _, k := range md.MapKeys() {
+					vs := md.MapIndex(k)
+					for i := 0; i < vs.Len(); i++ {
+						out[k.String()] = append(out[k.String()], vs.Index(i).String())
+					}
+				}
+				added := rv.FieldByName("added")
+				for i := 0; i < added.Len(); i++ {
+					kv := added.Index(i)
+					for j := 0; j+1 < kv.Len(); j += 2 {
+						out[kv.Index(j).String()] = append(out[kv.Index(j).String()], kv.Index(j+1).String())
+					}
+				}
+				return out, true
+			}
+		}
+		pf := e.FieldByName("Context")
+		if !pf.IsValid() {
+			if c := e.FieldByName("cancelCtx"); c.IsValid() {
+				pf = c.FieldByName("Context")
+			}
+		}
+		if !pf.IsValid() {
+			return nil, false
+		}
+		ctx, _ = zPeek(pf).(context.Context)
+	}
+	return nil, false
 }
